@@ -28,3 +28,4 @@ func verifOr(a, b bool) bool
 func verifImplies(a, b bool) bool
 func verifParam(name string) int
 func verifPreemptBound(n int)
+func verifDeepEqual(a, b interface{}) bool
